@@ -6,9 +6,11 @@
 (*   configured), every requested suffix, and every tree of at most        *)
 (*   MaxEntries entries over the pools below (trees of more than one entry *)
 (*   are taken from SmallCodes only).                                      *)
-(* mode "cfg": WHICH directories are searched.  Nine candidate directories *)
-(*   (five project directories incl. BASE_DIR/components, four app         *)
-(*   directories) all exist with the same small tree; the state chooses    *)
+(* mode "cfg": WHICH directories are searched.  Thirteen candidate         *)
+(*   directories (five project directories incl. BASE_DIR/components,      *)
+(*   eight app directories, one of an app located through a linked         *)
+(*   sys.path entry and one that is a symbolic link to a shared directory) *)
+(*   all exist with the same small tree; the state chooses                 *)
 (*   COMPONENTS.dirs (not given / given empty / given with one or more of  *)
 (*   the candidates in str, Path and tuple form), STATICFILES_DIRS (empty /*)
 (*   one / several candidates, plain and (prefix, path) form, also one     *)
@@ -49,7 +51,9 @@ Cfg(d, a, names) == [dirs |-> d, appdirs |-> a, appnames |-> names, form |-> "di
 \* how the root is configured; the harness materialises it from (kind, prefix, app, alias, src) and cfg.
 \* Variants 10.. are the SPELLINGS (LightVarIdx: they get the trees over LightCodes only)
 V(id, kind, prefix, app, alias, glob, src, cfg) ==
-  [id |-> id, kind |-> kind, prefix |-> prefix, app |-> app, alias |-> alias, globmeta |-> glob, src |-> src, cfg |-> cfg]
+  [id |-> id, kind |-> kind, prefix |-> prefix, app |-> app, alias |-> alias, globmeta |-> glob, src |-> src, cfg |-> cfg,
+   reach |-> "plain"]
+VR(v, reach) == [v EXCEPT !.reach = reach]
 Variants == <<
   V("dirs-str",      "dirs", <<"comps">>,            <<>>, <<>>, FALSE, <<M("dirs", "str")>>,  Cfg("set", "unset", <<>>)),
   V("dirs-path",     "dirs", <<"outer", "comps">>,   <<>>, <<>>, FALSE, <<M("dirs", "path")>>, Cfg("set", "set", <<>>)),
@@ -89,7 +93,18 @@ Variants == <<
   V("base-dotdot",   "dirs", <<"comps">>,            <<>>, <<>>, FALSE, <<M("dirs", "str")>>,
     [Cfg("set", "unset", <<>>) EXCEPT !.base = "dotdot"]),
   V("base-link",     "dirs", <<"components">>,       <<>>, <<>>, FALSE, <<M("default", "")>>,
-    [Cfg("unset", "unset", <<>>) EXCEPT !.base = "alias"]) >>
+    [Cfg("unset", "unset", <<>>) EXCEPT !.base = "alias"]),
+  \* 21.. how the file system leads to an APP directory: 21 the app package located through a sys.path entry that
+  \* is a symbolic link, app_dirs not given
+  VR(V("app-pathlink", "app", <<"lnkapp", "components">>, <<"lnkapp">>, <<>>, FALSE, <<>>, Cfg("set", "unset", <<>>)), "pathlink"),
+  \* 22: the same app, app_dirs = ["./ui"]
+  VR(V("app-pathlink-ui", "app", <<"lnkapp", "ui">>, <<"lnkapp">>, <<>>, FALSE, <<>>,
+       Cfg("unset", "set", <<E(<<"ui">>, "dot")>>)), "pathlink"),
+  \* 23: <app>/components is a symbolic link to a shared directory elsewhere
+  VR(V("app-dirlink", "app", <<"extapp", "components">>, <<"extapp">>, <<>>, FALSE, <<>>, Cfg("set", "unset", <<>>)), "dirlink"),
+  \* 24: <app>/parts/inner of a nested app is such a link, app_dirs = ["parts/inner/"]
+  VR(V("app-nested-dirlink-path", "app", <<"pk", "napp", "parts", "inner">>, <<"pk", "napp">>, <<>>, FALSE, <<>>,
+       Cfg("set", "set", <<E(<<"parts", "inner">>, "slash")>>)), "dirlink") >>
 
 \* entry codes: kind*10000 + dir*100 + name
 Decode(c) == LET d == (c % 10000) \div 100
@@ -98,7 +113,7 @@ Decode(c) == LET d == (c % 10000) \div 100
 
 (* ---- the "cfg" family -------------------------------------------------- *)
 C(id, kind, prefix, app, alias) ==
-  [id |-> id, kind |-> kind, prefix |-> prefix, app |-> app, alias |-> alias, globmeta |-> FALSE]
+  [id |-> id, kind |-> kind, prefix |-> prefix, app |-> app, alias |-> alias, globmeta |-> FALSE, reach |-> "plain"]
 Cands == <<
   C("c1", "dirs", <<"comps">>,                <<>>, <<"lnk", "c1">>),
   C("c2", "dirs", <<"outer", "comps">>,       <<>>, <<>>),
@@ -110,7 +125,10 @@ Cands == <<
   C("c8", "app",  <<"extapp", "components">>, <<"extapp">>, <<>>),
   C("c9", "app",  <<"genapp", "ui">>,         <<"genapp">>, <<>>),
   C("c10", "app", <<"extapp", "parts", "inner">>,     <<"extapp">>, <<>>),
-  C("c11", "app", <<"pk", "napp", "parts", "inner">>, <<"pk", "napp">>, <<>>) >>
+  C("c11", "app", <<"pk", "napp", "parts", "inner">>, <<"pk", "napp">>, <<>>),
+  \* an app located through a linked sys.path entry; an app directory that is a link to a shared directory
+  VR(C("c12", "app", <<"lnkapp", "components">>, <<"lnkapp">>, <<>>), "pathlink"),
+  VR(C("c13", "app", <<"extapp", "ui">>,         <<"extapp">>, <<>>), "dirlink") >>
 DefaultCand == 5
 L(c, f) == [c |-> c, form |-> f, spell |-> "plain"]
 LS(c, f, sp) == [c |-> c, form |-> f, spell |-> sp]
@@ -163,7 +181,7 @@ Mentions(list, w, c) == LET mine == SelectSeq(list, LAMBDA x : x.c = c) IN
                         [i \in DOMAIN mine |-> MS(w, mine[i].form, mine[i].spell)]
 ScnRoots(x) == [c \in DOMAIN Cands |->
   [id |-> Cands[c].id, kind |-> Cands[c].kind, prefix |-> Cands[c].prefix, app |-> Cands[c].app,
-   alias |-> Cands[c].alias, globmeta |-> FALSE,
+   alias |-> Cands[c].alias, globmeta |-> FALSE, reach |-> Cands[c].reach,
    src |-> IF Cands[c].kind = "app" THEN <<>>
            ELSE Mentions(DirsChoices[x.d].list, "dirs", c) \o Mentions(StaticChoices[x.s], "static", c)
                 \o (IF c = DefaultCand THEN <<M("default", "")>> ELSE <<>>)]]
@@ -176,7 +194,7 @@ mcVars == <<vid, sid, codes, scn>>
 IsCfg == scn # NoScn
 Sfx == Suffixes[sid]
 Tree == {Decode(c) : c \in codes}
-Root == [k \in {"id", "kind", "prefix", "app", "alias", "globmeta", "src"} |-> Variants[vid][k]]
+Root == [k \in {"id", "kind", "prefix", "app", "alias", "globmeta", "src", "reach"} |-> Variants[vid][k]]
 TheRoots == IF IsCfg THEN ScnRoots(scn) ELSE <<Root>>
 TheTrees == IF IsCfg THEN [c \in DOMAIN Cands |-> CfgTree] ELSE <<Tree>>
 TheCfg == IF IsCfg THEN ScnCfg(scn) ELSE Variants[vid].cfg
@@ -226,7 +244,8 @@ Theorems ==
   \* how directories are spelled (and how often they are listed) means nothing: the same configuration with every
   \* path written plainly selects the same files under the same dotted paths
   /\ LET plain == [k \in DOMAIN TheRoots |->
-                     [TheRoots[k] EXCEPT !.src = [i \in DOMAIN TheRoots[k].src |-> [TheRoots[k].src[i] EXCEPT !.spell = "plain"]]]]
+                     [TheRoots[k] EXCEPT !.src = [i \in DOMAIN TheRoots[k].src |-> [TheRoots[k].src[i] EXCEPT !.spell = "plain"]],
+                                         !.reach = "plain"]]
          pcfg == [TheCfg EXCEPT !.base = "plain",
                                 !.appnames = [i \in DOMAIN TheCfg.appnames |-> [TheCfg.appnames[i] EXCEPT !.spell = "plain"]]]
          P(rows) == {[k |-> r.k, parts |-> r.parts, dot |-> r.dot, n |-> r.n] : r \in rows} IN
